@@ -3,6 +3,8 @@
 //! Values travel as neutral serde-data-model trees (see wire/tree.rs for the token syntax).  Ops (inputs only):
 //!   hdr <Kind>                 -> hex of RecordHeader{kind}.try_serialize()
 //!   hdrdec <hex>               -> ok <Kind> | err              (RecordHeader::from_record, compared exactly)
+//!   reghex <hex of the text>   -> ok | err      (RegisterAddress::from_hex on arbitrary text; inputs that decode to exactly 80
+//!                                 bytes are only generated from real addresses, the key bytes being opaque to the model)
 //!   ischunk <hex>              -> ok true|ok false|err    (RecordHeader::is_record_of_type_chunk, compared exactly)
 //!   ischunksweep <b0 hex>      -> the same over every (b1,b2), run-length coded: t|f|- (exact, exhaustive)
 //!   hdrtry <hex>               -> ok <Kind> | err              (RecordHeader::try_deserialize on the whole slice: 1-arrays with the tag
@@ -453,6 +455,14 @@ fn exec(line: &str, tys: &[Ty]) -> String {
                     Err(_) => "err".into(),
                 })
             }
+            "reghex" => {
+                let text = String::from_utf8(unhex(ws[1])?).ok()?;
+                Some(match RegisterAddress::from_hex(&text) {
+                    Ok(a) if a.to_hex().eq_ignore_ascii_case(&text) => "ok".into(),
+                    Ok(_) => "ok-but-prints-differently".into(),
+                    Err(_) => "err".into(),
+                })
+            }
             "ischunk" => {
                 let b = unhex(ws[1])?;
                 Some(match RecordHeader::is_record_of_type_chunk(&record(b)) {
@@ -779,6 +789,12 @@ fn main() {
             v.push(format!("ischunk {h}"));
             v.push(format!("hdrtry {h}"));
         }
+        {
+            let a = RegisterAddress::new(xor(&mut rng), sk(&mut rng).public_key()).to_hex();
+            for t in [String::new(), "ab".into(), "abcd".into(), a[..62].into(), a[..64].into(), a[..66].into(), a[..158].into(), a[..159].into(), a.clone(), a.to_uppercase(), format!("{a}00"), format!("{a}0"), a.replacen('a', "g", 1), format!("zz{}", &a[2..])] {
+                v.push(format!("reghex {}", hex(t.as_bytes())));
+            }
+        }
         for b0 in ["91", "81", "c4", "00", "92"] {
             v.push(format!("ischunksweep {b0}"));
         }
@@ -891,6 +907,22 @@ fn main() {
                     }
                     if rng.chance(1, 8) {
                         v.push(format!("ischunksweep {:02x}", rng.below(256)));
+                    }
+                    if rng.chance(1, 4) {
+                        let a = RegisterAddress::new(xor(&mut rng), sk(&mut rng).public_key()).to_hex();
+                        let t = match rng.below(6) {
+                            0 => a.clone(),
+                            1 | 2 => a[..rng.below(160) as usize].to_string(),
+                            3 => format!("{a}{}", &a[..rng.range(1, 8) as usize]),
+                            4 => {
+                                let mut c: Vec<char> = a.chars().collect();
+                                let i = rng.below(160) as usize;
+                                c[i] = *rng.pick(&['g', 'z', ' ', '-', 'x']);
+                                c.into_iter().collect()
+                            }
+                            _ => a[..(2 * rng.below(32)) as usize].to_string(),
+                        };
+                        v.push(format!("reghex {}", hex(t.as_bytes())));
                     }
                 }
                 18 => {
